@@ -281,8 +281,8 @@ def model_terms(sc, ops_out):
             o_ += [z(x) for x in g]
         outs.append(vplib.coq_list(o_))
     tblt = vplib.coq_list(["(%s, %s)" % (z(a), z(s)) for a, s in sorted(tbl.items())])
-    inp = "(%s, %s, %s, %s)" % (vplib.coq_list(cfgl), vplib.coq_list(acc), tblt, vplib.coq_list(ops))
-    return inp, vplib.coq_list(outs)
+    inp = "(sc_in %s %s %s %s)" % (vplib.coq_list(cfgl), vplib.coq_list(acc), tblt, vplib.coq_list(ops))
+    return inp, "(sc_out %s)" % vplib.coq_list(outs)
 
 
 def panic_terms(sc, summaries):
@@ -297,11 +297,13 @@ def panic_terms(sc, summaries):
     ops = []
     for o, s in zip(sc["ops"], summaries):
         ops.append(vplib.coq_list([z(x) for x in s]))
-    inp = "(%s, %s, [], %s)" % (vplib.coq_list(cfgl), vplib.coq_list(acc), vplib.coq_list(ops))
-    return inp, "[[(-2)%Z]]"
+    inp = "(sc_in %s %s [] %s)" % (vplib.coq_list(cfgl), vplib.coq_list(acc), vplib.coq_list(ops))
+    return inp, "(sc_out [[(-2)%Z]])"
 
 
-PREAMBLE = "From V Require Import Model.Server.\n"
+PREAMBLE = ("From V Require Import Model.Server.\n"
+            "Definition sc_in (c a : list Z) (t : list (Z * Z)) (o : list (list Z)) := (c, a, t, o).\n"
+            "Definition sc_out (x : list (list Z)) := x.\n")
 CHECKER = "mismatches zll_eqb scenario_run"
 
 
